@@ -179,6 +179,35 @@ def run_json(chk, quick, counts):
         chk.nontrivial(case)
 
 
+def memory_stream(chk, quick, counts):
+    """a small, highly compressible report (a legal JSON document padded with megabytes of blanks): reading it must not need
+    memory proportional to the decompressed size.  Each case runs in a fresh harness process; the peak resident set is
+    compared with that of the same report without padding."""
+    plain = ('{"format_version":"1","gcc_version":"12","current_working_directory":"/w","data_file":"a.gcda","files":[{"file":"a.c",'
+             '"functions":[{"name":"f","demangled_name":"f","start_line":1,"start_column":1,"end_line":3,"end_column":1,"blocks":2,"blocks_executed":2,"execution_count":4}],'
+             '"lines":[{"line_number":1,"function_name":"f","count":4,"unexecuted_block":false,"branches":[]},'
+             '{"line_number":2,"function_name":"f","count":0,"unexecuted_block":true,"branches":[]}]}]}')
+    base = vlib.run_impl("gcov_json", [{"hex": gzip.compress(plain.encode()).hex(), "notree": True}], PID)[0]
+    for mb in ([32] if quick else [32, 128, 512]):
+        pad = " " * (mb << 20)
+        text = plain.replace('"files":[', '"files":[' + pad, 1).replace('"lines":[', '"lines":[\n' + pad, 1)
+        gz = gzip.compress(text.encode(), 6)
+        r = vlib.run_impl("gcov_json", [{"hex": gz.hex(), "notree": True}], PID)[0]
+        chk.count()
+        a, b = G.results_from_impl(r), G.results_from_impl(base)
+        grow = r.get("_hwm_kb", 0) - base.get("_hwm_kb", 0)
+        allow = 64 * len(gz) // 1024 + 16384
+        counts["json memory: %d MiB of blanks in %d bytes, peak grew by %d kB" % (2 * mb, len(gz), grow)] = 1
+        rep = {"kind": "oracle", "engine": "gcov_json", "input": "the report %s with %d MiB of blanks after '\"files\":[' and after '\"lines\":[' , gzip: %d bytes" % (plain, mb, len(gz))}
+        if a[0] != "ok" or vlib.canon(a[1]) != vlib.canon(b[1]):
+            chk.violation(dict(rep, impl=a, expected=b, clause="white space between JSON tokens does not change what the report says"), tag="gcovjson-mem")
+        elif grow > allow:
+            chk.violation(dict(rep, peak_growth_kb=grow, allowed_kb=allow,
+                               clause="memory stays within a modest multiple of the input size (here: 64 x the %d-byte file + 16 MiB), not of the decompressed size" % len(gz)), tag="gcovjson-mem")
+        else:
+            chk.nontrivial(["json-mem", mb])
+
+
 class _Pid:
     """run_json_cases only needs .pid (scratch directory names)"""
     def __init__(self, chk):
@@ -191,4 +220,5 @@ def run_part(chk):
     counts = {}
     run_text(chk, quick, counts)
     run_json(chk, quick, counts)
+    memory_stream(chk, quick, counts)
     return counts
